@@ -1185,6 +1185,12 @@ fn prologue(g: &mut Gen, variant: u64) {
             let r = g.push(Op::CreateSub(is, n.elidx("SYSTEM-SIGNAL-REF")));
             if let Some(rf) = r.strip_prefix("R OK h").and_then(|x| x.parse::<usize>().ok()) {
                 g.push(Op::SetRefTarget(rf, sig));
+                if variant % 3 == 2 {
+                    // the reference pattern makes the leading '/' optional: "p1/Sig" is accepted as a text, but it is no
+                    // Autosar path - the reference dangles, for the invalid-reference report AND for get_reference_target
+                    g.paths.insert("p1/Sig".to_string());
+                    g.push(Op::SetCData(rf, Val::S(b"p1/Sig".to_vec())));
+                }
             }
         }
     }
